@@ -75,4 +75,38 @@ theorem owned_object_persists_refuted : ¬ OwnedObjectPersists false := owned_ob
 example : (srun (sinit 60 false) (releaseSpansTakeover ++ [(3, .create)])).map
     (fun s => ((s.cl 2).isLocked, (s.cl 3).isLocked, s.obj.map (·.owner))) = some (true, true, some 3) := by decide
 
+/-! ### S3 lock: time to `TimeoutError` -/
+
+theorem pollLoop_bound (timeout pollMax : Nat) : ∀ (sleeps : List Nat) (el0 : Nat), (∀ d ∈ sleeps, d ≤ pollMax) →
+    el0 ≤ timeout + pollMax → ∀ el, pollLoop timeout el0 sleeps = some el → timeout ≤ el ∧ el ≤ timeout + pollMax := by
+  intro sleeps
+  induction sleeps with
+  | nil =>
+    intro el0 _ h0 el h
+    unfold pollLoop at h
+    split at h
+    · cases h; exact ⟨by assumption, h0⟩
+    · cases h
+  | cons d rest ih =>
+    intro el0 hs h0 el h
+    unfold pollLoop at h
+    split at h
+    · cases h; exact ⟨by assumption, h0⟩
+    · rename_i hlt
+      have hd : d ≤ pollMax := hs d List.mem_cons_self
+      exact ih (el0 + d) (fun x hx => hs x (List.mem_cons_of_mem _ hx)) (by omega) el h
+
+/-- **s3_timeout_bound** — a contender blocked for its whole timeout gets `TimeoutError` no earlier than the timeout and no
+later than the timeout plus ONE poll interval, whatever the jitter draws (any number of polls) -/
+theorem s3_timeout_bound (timeout pollMax : Nat) (sleeps : List Nat) (h : ∀ d ∈ sleeps, d ≤ pollMax) (el : Nat)
+    (he : pollLoop timeout 0 sleeps = some el) : timeout ≤ el ∧ el ≤ timeout + pollMax :=
+  pollLoop_bound timeout pollMax sleeps 0 h (by omega) el he
+
+/-- what the bound excludes: a back-off that grows without being clamped to the remaining time overshoots by far more than a poll -/
+theorem unclamped_backoff_overshoots : pollLoop 30000 0 [1000, 2000, 4000, 8000, 16000, 20000] = some 31000 ∧
+    pollLoop 30000 0 [500, 1000, 2000, 4000, 8000, 16000, 20000] = some 31500 ∧
+    pollLoop 5000 0 [300, 600, 1200, 2400, 4800] = some 9300 := by decide
+
+example : pollLoop 5000 0 [900, 900, 900, 900, 900, 900, 900] = some 5400 := by decide
+
 end DSV.Lock
